@@ -8,7 +8,7 @@ from __future__ import annotations
 
 import ast
 
-from ..astutil import body_always_raises, calls_in, dotted, enclosing_stmt, is_within, src, walk_local
+from ..astutil import deref, body_always_raises, calls_in, dotted, enclosing_stmt, is_within, src, walk_local
 from ..cfg import cfg_of
 from ..loader import AnalysisError
 from ..terms import Evaluator, alts, contains, find, show, walk
@@ -124,7 +124,7 @@ def r2_delete_refusal(ctx):
             t = n.test
             for c in ast.walk(t):
                 if isinstance(c, ast.Compare) and len(c.ops) == 1 and isinstance(c.ops[0], ast.Is) and isinstance(c.comparators[0], ast.Constant) and c.comparators[0].value is None:
-                    left = c.left.value if isinstance(c.left, ast.NamedExpr) else c.left
+                    left = deref(fn.node, c.left)
                     if isinstance(left, ast.Subscript) and isinstance(left.value, ast.Name) and left.value.id == roles.body_var and isinstance(left.slice, ast.Constant) and left.slice.value == 'data':
                         refusals.append(n)
     for st in sel:
